@@ -1,7 +1,237 @@
-(* C02: obligations on the regenerated tables (finite, by computation) *)
+(* C02: the finite obligations on the regenerated tables (by computation over the tables - the domain
+   is the table), the generic theorems instantiated with them, and the refutation witnesses. *)
 From Coq Require Import List String NArith Bool.
-From FIM Require Import Base.Str Model.Sliver2Kinds Gen.PropMap Model.Sliver2Map.
+From FIM Require Import Base.Str Model.Sliver2Kinds Gen.PropMap Model.Sliver2Map Model.Sliver2WF
+  Model.Sliver2Deep Model.Sliver2DeepWF Model.Sliver2Graph
+  Proofs.Sliver2Assoc Proofs.Sliver2MapRT Proofs.Sliver2Elem Proofs.Sliver2DeepRT.
 Import ListNotations.
 
 Lemma gen_ok_true : gen_ok = true.
 Proof. reflexivity. Qed.
+
+(* every attribute of every sliver class is written and read back by mutually inverse table entries;
+   no graph property collides with a child key or the node id; absent properties read as documented *)
+Lemma all_tables_ok_true : all_tables_ok = true.
+Proof. vm_compute. reflexivity. Qed.
+
+Definition setter_keywords (k : kind) : list string := map (fun se => fst (fst se)) (setters k).
+
+(* SLIVER_PROPERTY_TO_GRAPH sends each property name to the graph property its attribute is stored in *)
+Lemma unset_map_all_true : forallb (fun k => forallb (unset_map_ok k) (setter_keywords k)) all_kinds = true.
+Proof. vm_compute. reflexivity. Qed.
+
+(* the settable properties that cannot be unset through the API *)
+Lemma unmapped_exact :
+  map unmapped_setters all_kinds =
+  [["image_type"; "stitch_node"]; ["stitch_node"]; ["stitch_node"]; ["stitch_node"]; ["stitch_node"]]%string.
+Proof. vm_compute. reflexivity. Qed.
+
+(* unsetting reads None for every mapped settable property except the gateway of a service *)
+Definition unset_none_entry (k : kind) (kw : string) : bool :=
+  match settable k kw, alookup kw sliver_property_to_graph with
+  | Some x, Some _ => match unset_reads k x with
+                      | None => true
+                      | Some _ => kind_eqb k KService && String.eqb kw "gateway"
+                      end
+  | _, _ => true
+  end.
+Lemma unset_none_all_true : forallb (fun k => forallb (unset_none_entry k) (setter_keywords k)) all_kinds = true.
+Proof. vm_compute. reflexivity. Qed.
+
+Lemma sym k : tables_symmetric k = true.
+Proof. apply (tables_ok_parts k all_tables_ok_true). Qed.
+Lemma absent k : absent_ok k = true.
+Proof. apply (tables_ok_parts k all_tables_ok_true). Qed.
+
+Lemma settable_is_setter k p x : settable k p = Some x -> In p (setter_keywords k).
+Proof.
+  unfold settable, find_setter, setter_keywords.
+  destruct (find (fun e => String.eqb (fst (fst e)) p) (setters k)) as [[[kw a] s]|] eqn:E; [|discriminate].
+  intros _. apply find_some in E as [Hin He]. simpl in He. apply String.eqb_eq in He. subst.
+  apply in_map_iff. exists (p, a, s). split; [reflexivity | exact Hin].
+Qed.
+
+Lemma unset_map_ok_all k p : unset_map_ok k p = true.
+Proof.
+  destruct (settable k p) as [x|] eqn:E.
+  - assert (H := unset_map_all_true). rewrite forallb_forall in H. specialize (H k (in_all_kinds k)).
+    rewrite forallb_forall in H. apply H. eapply settable_is_setter. exact E.
+  - unfold unset_map_ok. rewrite E. reflexivity.
+Qed.
+
+(* ---------- instantiated theorems ---------- *)
+Theorem props_roundtrip k a :
+  attrs_wf k a = true -> bind (to_props k a) (from_props k) = Ok (normalize k a).
+Proof. apply props_roundtrip_generic. apply sym. Qed.
+
+Theorem props_roundtrip_exact k a :
+  attrs_wf k a = true -> is_normal k a = true -> bind (to_props k a) (from_props k) = Ok a.
+Proof. intros H1 H2. rewrite (props_roundtrip k a H1). rewrite (normalize_normal k a H2). reflexivity. Qed.
+
+Theorem dict_roundtrip t :
+  tree_wf t = true -> bind (to_dict t) (from_dict (t_kind t)) = Ok (forget_ids t).
+Proof. apply dict_roundtrip_bind. exact all_tables_ok_true. Qed.
+
+Theorem json_roundtrip t :
+  tree_wf t = true -> bind (sliver_to_json t) (sliver_from_json (t_kind t)) = Ok (forget_ids t).
+Proof. apply json_roundtrip_generic. exact all_tables_ok_true. Qed.
+
+Theorem set_get k p v d x :
+  settable k p = Some x -> single_written k x = true -> value_ok k p v = true -> readable k d = true ->
+  exists d', set_property k p (Some v) d = Ok d' /\ get_property k p d' = Ok (stored k p v).
+Proof.
+  intros Hset Hsw Hv Hr. unfold single_written in Hsw.
+  destruct (to_for k x) as [[g [e|x0]]|] eqn:E; try discriminate.
+  eapply (set_get_generic k p v d x g e (sym k) Hset E); try assumption.
+  intros y Hy. subst e. discriminate.
+Qed.
+
+Lemma stored_argument k p v : stores_argument k p = true -> value_ok k p v = true -> stored k p v = Some v.
+Proof.
+  unfold stores_argument, value_ok, stored. cbn [blank_with].
+  destruct (find_setter k p) as [[x st]|]; [|discriminate].
+  intros Hst Hv. destruct (apply_setter st (Some v)) as [o|] eqn:E; [|discriminate].
+  destruct st as [[c|]| | | |[c|]]; simpl in E; try discriminate.
+  - destruct (val_class v) as [c'|]; [destruct (String.eqb c c')|]; inversion E; reflexivity.
+  - inversion E; reflexivity.
+  - destruct v; inversion E; reflexivity.
+  - destruct v; inversion E; reflexivity.
+  - destruct (val_class v) as [c'|]; [destruct (String.eqb c c')|]; inversion E; reflexivity.
+  - inversion E; reflexivity.
+Qed.
+
+Theorem set_get_same k p v d x :
+  settable k p = Some x -> single_written k x = true -> stores_argument k p = true ->
+  value_ok k p v = true -> readable k d = true ->
+  exists d', set_property k p (Some v) d = Ok d' /\ get_property k p d' = Ok (Some v).
+Proof.
+  intros Hset Hsw Hsa Hv Hr. destruct (set_get k p v d x Hset Hsw Hv Hr) as [d' [H1 H2]].
+  exists d'. split; [exact H1|]. rewrite H2. rewrite (stored_argument k p v Hsa Hv). reflexivity.
+Qed.
+
+Theorem unset_get k p d x g :
+  settable k p = Some x -> alookup p sliver_property_to_graph = Some g ->
+  mem g no_unset_properties = false -> readable k d = true ->
+  exists d', set_property k p None d = Ok d' /\ get_property k p d' = Ok (unset_reads k x).
+Proof.
+  intros Hset Hmap Hnu Hr.
+  exact (unset_get_generic k p d x g (sym k) (absent k) Hset Hmap Hnu (unset_map_ok_all k p) Hr).
+Qed.
+
+Lemma unset_reads_none k p x g :
+  settable k p = Some x -> alookup p sliver_property_to_graph = Some g ->
+  (kind_eqb k KService && String.eqb p "gateway") = false -> unset_reads k x = None.
+Proof.
+  intros Hset Hmap Hng.
+  assert (H := unset_none_all_true). rewrite forallb_forall in H. specialize (H k (in_all_kinds k)).
+  rewrite forallb_forall in H. specialize (H p (settable_is_setter k p x Hset)).
+  unfold unset_none_entry in H. rewrite Hset, Hmap in H.
+  destruct (unset_reads k x); [|reflexivity]. rewrite Hng in H. discriminate.
+Qed.
+
+(* unset makes the property read as absent - for every mapped property but the gateway of a service *)
+Theorem unset_get_absent k p d x g :
+  settable k p = Some x -> alookup p sliver_property_to_graph = Some g ->
+  mem g no_unset_properties = false -> readable k d = true ->
+  (kind_eqb k KService && String.eqb p "gateway") = false ->
+  exists d', set_property k p None d = Ok d' /\ get_property k p d' = Ok None.
+Proof.
+  intros Hset Hmap Hnu Hr Hng. destruct (unset_get k p d x g Hset Hmap Hnu Hr) as [d' [H1 H2]].
+  exists d'. split; [exact H1|]. rewrite H2. rewrite (unset_reads_none k p x g Hset Hmap Hng). reflexivity.
+Qed.
+
+(* documented: name and type (NO_UNSET_PROPERTIES) are refused loudly *)
+Theorem unset_refused k p d g :
+  alookup p sliver_property_to_graph = Some g -> mem g no_unset_properties = true ->
+  set_property k p None d = Err ExQuery.
+Proof. intros H1 H2. unfold set_property, unset_property. rewrite H1, H2. reflexivity. Qed.
+
+(* a property without an unset mapping: unset is a silent no-op *)
+Theorem unset_unmapped_noop k p d :
+  alookup p sliver_property_to_graph = None -> set_property k p None d = Ok d.
+Proof. intro H. unfold set_property, unset_property. rewrite H. reflexivity. Qed.
+
+(* ---------- witnesses ---------- *)
+Definition w_name (s : string) : option fval := Some (FStr (of_string s)).
+
+(* a freshly built, named network service: gateway is None *)
+Definition w_service : attrs := aset "resource_name" (w_name "s1") (blank KService).
+
+Lemma props_roundtrip_refuted :
+  exists k a, attrs_wf k a = true /\ bind (to_props k a) (from_props k) <> Ok a.
+Proof.
+  exists KService, w_service. split; [vm_compute; reflexivity|].
+  vm_compute. intro H. inversion H.
+Qed.
+
+(* an empty Capacities object: encoded as '' *)
+Definition w_empty_caps : attrs :=
+  aset "capacities" (Some (FObj "Capacities" (Some []))) (aset "resource_name" (w_name "n1") (blank KNode)).
+
+Lemma empty_object_refuted :
+  bind (to_props KNode w_empty_caps) (from_props KNode)
+  = Ok (aset "capacities" None w_empty_caps).
+Proof. vm_compute. reflexivity. Qed.
+
+(* the node properties of a named VM *)
+Definition w_node_props : props :=
+  [("GraphID", Some (S"g")); ("NodeID", Some (S"n1")); ("Name", Some (S"n1")); ("Type", Some (S"VM"));
+   ("StitchNode", Some (S"false")); ("Site", Some (S"RENC"))]%string.
+Definition w_service_props : props :=
+  [("GraphID", Some (S"g")); ("NodeID", Some (S"s1")); ("Name", Some (S"s1")); ("Type", Some (S"L2Bridge"));
+   ("StitchNode", Some (S"false")); ("Gateway", Some (S"{""ipv4"": ""10.0.0.1"", ""ipv4_subnet"": ""10.0.0.0/24""}"))]%string.
+
+Lemma image_ref_alone_refuted :
+  readable KNode w_node_props = true /\
+  exists d', set_property KNode "image_ref" (Some (FStr (S"img"))) w_node_props = Ok d' /\
+             get_property KNode "image_ref" d' = Ok None.
+Proof. split; [vm_compute; reflexivity|]. eexists. split; vm_compute; reflexivity. Qed.
+
+Lemma image_pair_example :
+  exists d', set_properties KNode [("image_ref", Some (FStr (S"img"))); ("image_type", Some (FStr (S"qcow2")))]%string
+                            w_node_props = Ok d' /\
+             get_property KNode "image_ref" d' = Ok (Some (FStr (S"img"))) /\
+             get_property KNode "image_type" d' = Ok (Some (FStr (S"qcow2"))).
+Proof. eexists. split; [|split]; vm_compute; reflexivity. Qed.
+
+Lemma image_comma_refuted :
+  exists d', set_properties KNode [("image_ref", Some (FStr (S"a,b"))); ("image_type", Some (FStr (S"qcow2")))]%string
+                            w_node_props = Ok d' /\
+             get_property KNode "site" d' = Err ExValue.
+Proof. eexists. split; vm_compute; reflexivity. Qed.
+
+Lemma unset_gateway_refuted :
+  readable KService w_service_props = true /\
+  exists d', set_property KService "gateway" None w_service_props = Ok d' /\
+             get_property KService "gateway" d' = Ok (Some (FObj "Gateway" None)).
+Proof. split; [vm_compute; reflexivity|]. eexists. split; vm_compute; reflexivity. Qed.
+
+(* graph route: node > component > service > DedicatedPort > sub-interface *)
+Definition w_sl (k : kind) (id name ty : string) (en : string) (c n i : option (list tree)) : tree :=
+  T k (Some (of_string id))
+    (aset "resource_type" (Some (FEnum en (of_string ty))) (aset "resource_name" (w_name name) (blank k))) c n i.
+
+Definition w_sub := w_sl KInterface "i2" "sub1" "SubInterface" "InterfaceType" None None None.
+Definition w_port := w_sl KInterface "i1" "p1" "DedicatedPort" "InterfaceType" None None (Some [w_sub]).
+Definition w_ns := w_sl KService "s1" "ns1" "OVS" "ServiceType" None None (Some [w_port]).
+Definition w_comp := w_sl KComponent "c1" "nic1" "SmartNIC" "ComponentType" None (Some [w_ns]) None.
+Definition w_tree := w_sl KNode "n1" "node1" "Server" "NodeType" (Some [w_comp]) None None.
+
+Definition gw_none : option fval := Some (FObj "Gateway" None).
+(* the same tree as it looks once read back: services carry the empty Gateway object *)
+Definition w_ns' := match w_ns with T k n a c s i => T k n (aset "gateway" gw_none a) c s i end.
+Definition w_comp' := w_sl KComponent "c1" "nic1" "SmartNIC" "ComponentType" None (Some [w_ns']) None.
+Definition w_tree' := w_sl KNode "n1" "node1" "Server" "NodeType" (Some [w_comp']) None None.
+
+Lemma graph_route_refuted :
+  tree_wf w_tree' = true /\ graph_roundtrip w_tree' = Ok (drop_subifs w_tree') /\ drop_subifs w_tree' <> w_tree'.
+Proof.
+  split; [vm_compute; reflexivity|]. split; [vm_compute; reflexivity|].
+  vm_compute. intro H. inversion H.
+Qed.
+
+(* non-vacuity of the round-trip hypotheses: the same deep tree through dictionary and JSON *)
+Lemma deep_example :
+  tree_wf w_tree' = true /\ bind (to_dict w_tree') (from_dict KNode) = Ok (forget_ids w_tree')
+  /\ forget_ids w_tree' <> T KNode None [] None None None.
+Proof. split; [vm_compute; reflexivity|]. split; [vm_compute; reflexivity|]. vm_compute. intro H. inversion H. Qed.
